@@ -11,6 +11,7 @@ import (
 	bloomfilter "github.com/KevoDB/kevo/pkg/bloom_filter"
 	"github.com/KevoDB/kevo/pkg/sstable/block"
 	"github.com/KevoDB/kevo/pkg/sstable/footer"
+	"github.com/KevoDB/kevo/pkg/verifhook"
 )
 
 // FileManager handles file operations for SSTable writing
@@ -69,6 +70,7 @@ func (fm *FileManager) FinalizeFile() error {
 	if err := os.Rename(fm.tmpPath, fm.path); err != nil {
 		return fmt.Errorf("failed to rename temp file: %w", err)
 	}
+	verifhook.At("sst.finish.renamed")
 
 	return nil
 }
@@ -366,6 +368,8 @@ func (w *Writer) flushBlock() error {
 
 	blockSize := uint32(len(blockData))
 
+	verifhook.At1("sst.block.prewrite", blockOffset)
+
 	// Write the block to file
 	n, err := w.fileManager.Write(blockData)
 	if err != nil {
@@ -512,10 +516,13 @@ func (w *Writer) Finish() (err error) {
 		return fmt.Errorf("wrote incomplete footer: %d of %d bytes", n, len(footerData))
 	}
 
+	verifhook.At("sst.finish.presync")
+
 	// Sync the file
 	if err := w.fileManager.Sync(); err != nil {
 		return fmt.Errorf("failed to sync file: %w", err)
 	}
+	verifhook.At("sst.finish.synced")
 
 	// Finalize file (close and rename)
 	return w.fileManager.FinalizeFile()
